@@ -130,8 +130,12 @@ func (e *Env) OverBudget() bool {
 	return false
 }
 func (e *Env) N(quick, thorough int) int {
-	if e.Search || e.Thorough() {
+	if e.Thorough() {
 		return thorough
+	}
+	if e.Search {
+		// the search phase of a quick check widens the generators but must stay within minutes
+		return min(thorough, 2*quick)
 	}
 	return quick
 }
